@@ -1,42 +1,56 @@
 #!/usr/bin/env python3
 """Runs the registered quick checks against the seeded changes kept under /verif/seeded/<id>/.
-usage: tools_seeded.py [<seed id> ...] [--checks C05,C07] [--tier quick]
+usage: tools_seeded.py [<seed id> ...] [--checks C05,C07] [--tier quick] [--worktree]
 For each seed: git -C /repo apply patch.diff ; ./check <property> (plus --checks) ; git -C /repo checkout -- . (always).
+--worktree: leave /repo alone (a long run is rebuilding from it): the patch is applied to a scratch git worktree of /repo's
+HEAD under /tmp and the checks run with VERIF_REPO pointing at it; the worktree is removed afterwards.
 Writes seeded/<id>/result.json: which checks reported a VIOLATION."""
 import json, os, subprocess, sys, time
 ROOT = "/verif"
 def sh(cmd, **kw): return subprocess.run(cmd, shell=True, capture_output=True, text=True, **kw)
 def main():
     args = sys.argv[1:]
-    extra, tier, ids = [], "quick", []
+    extra, tier, ids, wt = [], "quick", [], False
     i = 0
     while i < len(args):
         if args[i] == "--checks": extra = args[i+1].split(","); i += 2
         elif args[i] == "--tier": tier = args[i+1]; i += 2
+        elif args[i] == "--worktree": wt = True; i += 1
         else: ids.append(args[i]); i += 1
     if not ids: ids = sorted(os.listdir(ROOT + "/seeded"))
-    assert sh("git -C /repo status --porcelain").stdout.strip() == "", "/repo must be clean"
+    assert wt or sh("git -C /repo status --porcelain").stdout.strip() == "", "/repo must be clean"
     for sid in ids:
         d = f"{ROOT}/seeded/{sid}"
         meta = json.load(open(d + "/meta.json"))
         checks = [meta["property"]] + [c for c in extra if c != meta["property"]] + [c for c in meta.get("also_run", []) if c != meta["property"]]
         res = {"seed": sid, "tier": tier, "checks": {}}
-        r = sh(f"git -C /repo apply {d}/patch.diff")
+        repo, env = "/repo", ""
+        if wt:
+            repo = f"/tmp/seedeval-{os.getpid()}"
+            sh(f"git -C /repo worktree remove --force {repo}")
+            r = sh(f"git -C /repo worktree add --detach {repo} HEAD")
+            if r.returncode != 0:
+                print(sid, "CANNOT CREATE WORKTREE", r.stderr[:300]); continue
+            env = f"VERIF_REPO={repo} "
+        r = sh(f"git -C {repo} apply {d}/patch.diff")
         if r.returncode != 0:
-            print(sid, "PATCH DOES NOT APPLY", r.stderr[:300]); continue
+            print(sid, "PATCH DOES NOT APPLY", r.stderr[:300])
+            if wt: sh(f"git -C /repo worktree remove --force {repo}")
+            continue
         try:
             for c in checks:
                 t0 = time.time()
-                r = sh(f"cd {ROOT} && ./check {c} --tier {tier}")
+                r = sh(f"cd {ROOT} && {env}./check {c} --tier {tier}")
                 viol = [l for l in r.stdout.splitlines() if l.startswith("VIOLATION")]
                 keys = [l.strip() for l in r.stdout.splitlines() if l.strip().startswith("key=")]
                 res["checks"][c] = {"exit": r.returncode, "violations": len(viol), "keys": keys[:6], "wall_s": round(time.time()-t0, 1)}
                 print(sid, c, "exit", r.returncode, "violations", len(viol), keys[:2])
         finally:
-            sh("git -C /repo checkout -- .")
+            if wt: sh(f"git -C /repo worktree remove --force {repo}")
+            else: sh("git -C /repo checkout -- .")
             sh(f"find {ROOT}/violations -name '*.json' -delete")
             sh(f"git -C {ROOT} checkout -- evidence")
         res["detected_by"] = [c for c, v in res["checks"].items() if v["violations"] > 0]
         json.dump(res, open(d + "/result.json", "w"), indent=1)
-    assert sh("git -C /repo status --porcelain").stdout.strip() == "", "/repo left dirty!"
+    assert wt or sh("git -C /repo status --porcelain").stdout.strip() == "", "/repo left dirty!"
 main()
